@@ -233,7 +233,11 @@ func runC09(c *an.Ctx) {
 				f := an.FactsAt(in)
 				lower, set := false, false
 				for _, a := range f {
-					if (strings.HasSuffix(a.L, ".Severity_.Int()") || strings.HasSuffix(a.L, ".Severity_")) && a.Op == "<" && strings.Contains(a.R, "Atoi(") && strings.Contains(a.R, "highestSeverity") {
+					isSev := func(e string) bool {
+						return strings.HasSuffix(e, ".Severity_.Int()") || strings.HasSuffix(e, ".Severity_")
+					}
+					isCur := func(e string) bool { return strings.Contains(e, "Atoi(") && strings.Contains(e, "highestSeverity") }
+					if isSev(a.L) && a.Op == "<" && isCur(a.R) || isCur(a.L) && a.Op == ">" && isSev(a.R) { // severity < current, either way round
 						lower = true
 					}
 					if strings.HasSuffix(a.L, ".Severity_") && a.Op == "!=" {
